@@ -50,6 +50,12 @@ void lltd_verif_hook(const char *point, void *iface_ctx);
 /* Upper bound on probes remembered between two Queries (per interface). */
 #define LLTD_SEE_LIST_MAX 1024
 
+/*
+ * Upper bound on the size of a Hello: base and Hello headers plus every property
+ * at its longest (206 bytes today).
+ */
+#define LLTD_HELLO_MAX_SIZE 256
+
 #define log_debug(...) lltd_port_log_debug(__VA_ARGS__)
 #define log_warning(...) lltd_port_log_warning(__VA_ARGS__)
 #define log_err(...) lltd_port_log_warning(__VA_ARGS__)
@@ -637,6 +643,11 @@ static void answerHello(void *inFrame, lltd_iface_state *st, void *iface_ctx) {
     size_t mtu = 0;
     if (lltd_port_get_mtu(iface_ctx, &mtu) != 0 || mtu == 0) {
         mtu = 1500;
+    }
+    if (mtu < LLTD_HELLO_MAX_SIZE) {
+        /* The properties are written in place into an MTU-sized buffer: one this small would be overrun. */
+        log_warning("answerHello: MTU %zu cannot hold a Hello, not answering", mtu);
+        return;
     }
 
     uint8_t *buffer = (uint8_t *)lltd_port_malloc(mtu);
